@@ -32,3 +32,7 @@ open Cst.C03
 #print axioms Cst.prevSibling_path
 #print axioms Cst.lastChild_spec
 #print axioms Cst.prevSibling_spec
+#print axioms forwarders_elem_ok
+#print axioms forwarders_resolved_ok
+#print axioms elem_token_first_last
+#print axioms elem_token_ancestors
